@@ -1,0 +1,85 @@
+//! Trace hooks for external verification tooling.
+//!
+//! Compiled only with the `verif` cargo feature. Every hook appends one JSON line
+//! `{"seq":n,"ev":"name",...}` to the file named by `PGCAT_VERIF_TRACE`; the sequence
+//! number is assigned and the line written under one process-wide mutex, so the file
+//! order is a total order of the hook points. Without the environment variable the
+//! hooks do nothing.
+//!
+//! `PGCAT_VERIF_DELAY="point=ms,point=ms"` makes the named delay points sleep, which lets
+//! a test driver widen a specific race window deterministically.
+
+use once_cell::sync::Lazy;
+use parking_lot::Mutex;
+use std::collections::HashMap;
+use std::fs::{File, OpenOptions};
+use std::io::Write;
+
+pub use serde_json::json;
+
+static SINK: Lazy<Option<Mutex<(u64, File)>>> = Lazy::new(|| {
+    let path = std::env::var("PGCAT_VERIF_TRACE").ok()?;
+    let file = OpenOptions::new()
+        .create(true)
+        .append(true)
+        .open(path)
+        .ok()?;
+    Some(Mutex::new((0, file)))
+});
+
+static DELAYS: Lazy<HashMap<String, u64>> = Lazy::new(|| {
+    let mut map = HashMap::new();
+    if let Ok(spec) = std::env::var("PGCAT_VERIF_DELAY") {
+        for item in spec.split(',') {
+            if let Some((point, ms)) = item.split_once('=') {
+                if let Ok(ms) = ms.trim().parse::<u64>() {
+                    map.insert(point.trim().to_string(), ms);
+                }
+            }
+        }
+    }
+    map
+});
+
+/// Append one event. `fields` must be a JSON object.
+pub fn emit(ev: &str, fields: serde_json::Value) {
+    if let Some(sink) = SINK.as_ref() {
+        let mut guard = sink.lock();
+        guard.0 += 1;
+        let mut object = serde_json::Map::new();
+        object.insert("seq".to_string(), json!(guard.0));
+        object.insert("ev".to_string(), json!(ev));
+        if let serde_json::Value::Object(map) = fields {
+            for (key, value) in map {
+                object.insert(key, value);
+            }
+        }
+        let mut line = serde_json::Value::Object(object).to_string();
+        line.push('\n');
+        let _ = guard.1.write_all(line.as_bytes());
+    }
+}
+
+/// Sleep at a named point if the driver asked for it.
+pub async fn delay(point: &str) {
+    if let Some(ms) = DELAYS.get(point) {
+        tokio::time::sleep(tokio::time::Duration::from_millis(*ms)).await;
+    }
+}
+
+/// Blocking variant for non-async call sites (keep the values small).
+pub fn delay_sync(point: &str) {
+    if let Some(ms) = DELAYS.get(point) {
+        std::thread::sleep(std::time::Duration::from_millis(*ms));
+    }
+}
+
+tokio::task_local! {
+    /// Process id pgcat issued to the client whose task is running (set around calls that
+    /// have no client argument).
+    pub static CURRENT_CLIENT: i32;
+}
+
+pub fn current_client() -> i32 {
+    CURRENT_CLIENT.try_with(|pid| *pid).unwrap_or(0)
+}
